@@ -5,6 +5,7 @@ import (
 	"encoding/json"
 	"fmt"
 	"reflect"
+	"sort"
 	"strings"
 	"time"
 
@@ -354,6 +355,7 @@ func c18BindRun[T any](mode string, variant int) (sent, expect, got string, err 
 	var callErr error
 	var isErr bool
 	var text string
+	var sparseDiff string
 	vsched.Go("caller", func() {
 		defer done.Set()
 		rq := &mcp.CallToolRequest{}
@@ -365,8 +367,42 @@ func c18BindRun[T any](mode string, variant int) (sent, expect, got string, err 
 			isErr = out.IsError
 			text = TextOf(out)
 		}
+		first := got
+		// later calls on the same tool with sparser arguments: what an earlier call carried must not show through
+		keys := make([]string, 0, len(args))
+		for k := range args {
+			keys = append(keys, k)
+		}
+		sort.Strings(keys)
+		for _, sub := range [][]string{{}, keys[:len(keys)/2], keys[len(keys)/2:]} {
+			part := map[string]interface{}{}
+			for _, k := range sub {
+				part[k] = args[k]
+			}
+			pb, _ := json.Marshal(part)
+			var ref T
+			if json.Unmarshal(pb, &ref) != nil {
+				continue
+			}
+			want := fmt.Sprintf("%#v", c18Flatten(ref))
+			rq2 := &mcp.CallToolRequest{}
+			rq2.Params.Name = "typed"
+			rq2.Params.Arguments = part
+			if o2, e2 := cl.CallTool(context.Background(), rq2); e2 != nil || o2.IsError {
+				sparseDiff = fmt.Sprintf("call with arguments %s failed: %v %s", pb, e2, TextOf(o2))
+				break
+			}
+			if got != want {
+				sparseDiff = fmt.Sprintf("after a fully populated call, a call with arguments %s reached the handler as %s; encoding/json decodes them to %s", truncate(string(pb), 200), truncate(got, 300), truncate(want, 300))
+				break
+			}
+		}
+		got = first
 	})
 	vsched.Quiesce()
+	if sparseDiff != "" && callErr == nil && !isErr {
+		return sent, expect, "!" + sparseDiff, nil
+	}
 	cl.Close()
 	if !done.Get() {
 		return sent, expect, got, fmt.Errorf("call never returned")
